@@ -10,6 +10,7 @@ R11.5 cited position exists: UnexpectedEOF's line/column (-1) never reach a Meta
 from __future__ import annotations
 
 import ast
+import re
 from typing import List, Optional, Set
 
 from ..front_py import AnalysisError, FuncInfo, walk_local, norm, dotted
@@ -454,8 +455,16 @@ def r114(eng, rep, xf, parse_sites) -> None:
                         keyroots.add(a)
                 # source text registered is the text parsed
                 if len(s.node.args) > 1 and cs.node.args:
-                    rep.check(norm(s.node.args[1]) == norm(cs.node.args[0]), "R11.4", f.file, f.qual, "add_source(_, %s) / parse(%s)" % (norm(s.node.args[1]), norm(cs.node.args[0])),
-                              "the registered text is the parsed text", "the text registered with the logger is not the text that is parsed (cited lines may not exist)")
+                    same = norm(s.node.args[1]) == norm(cs.node.args[0])
+                    rebound = []
+                    if same and isinstance(cs.node.args[0], ast.Name):
+                        # ... and the variable is not re-bound between the registration and the parse
+                        a_ln, p_ln = s.node.lineno, cs.node.lineno
+                        for k_, v_, st_ in Defs(f.node).values(cs.node.args[0].id):
+                            if a_ln < getattr(st_, "lineno", 0) < p_ln:
+                                rebound.append(norm(st_, 70))
+                    rep.check(same and not rebound, "R11.4", f.file, f.qual, "add_source(_, %s) / parse(%s)" % (norm(s.node.args[1]), norm(cs.node.args[0])),
+                              "the registered text is the parsed text", "the text registered with the logger is not the text that is parsed%s: cited lines may not exist in the registered text (IndexError while rendering) or show other content" % ((" (it is changed in between: %s)" % rebound[0]) if rebound else ""))
         # MetaData filename args inside this function's handlers for the parse (directly, or through a
         # one-level helper that builds the MetaData from its parameters)
         def md_file_arg(n):
@@ -498,6 +507,46 @@ def r114(eng, rep, xf, parse_sites) -> None:
                         covered = bool(roots) and all(any(related(a, k) for k in keyroots) for a in roots)
                         rep.check(covered, "R11.4", f.file, f.qual, txt,
                                   "cited file is the one registered (%s)" % ",".join(sorted(keyroots)), "the error cites a file (%s) other than the one registered with the logger (%s)" % (",".join(sorted(roots)), ",".join(sorted(keyroots))))
+    # (b2) the key a source is registered under and the key the renderer looks it up with are the same function of the file
+    def key_kind(e: ast.AST) -> Optional[str]:
+        t = norm(e, 200)
+        if re.search(r"\.name$", t) or re.search(r"basename\(", t):
+            return "basename"
+        if re.match(r"^str\(", t) or re.search(r"\.filename$", t) or re.search(r"(as_posix|__fspath__)\(\)$", t):
+            return "path"
+        return None
+    reg_kinds = set()
+    for q in sorted(xf.reach):
+        f_ = prog.functions[q]
+        for s_ in cg.sites_in(f_):
+            if "fcp.error.Logger.add_source" in s_.callees and s_.node.args and f_.module.name != "fcp.error":
+                reg_kinds.add(key_kind(resolve_local_expr(f_, s_.node.args[0])))
+    look_kinds = set()
+    lg_ = prog.classes.get("fcp.error.Logger")
+    for m_ in (lg_.methods.values() if lg_ else []):
+        for n_ in walk_local(m_.node):
+            if isinstance(n_, ast.Subscript) and isinstance(n_.ctx, ast.Load) and norm(n_.value) == "self.sources":
+                look_kinds.add(key_kind(n_.slice))
+    if None in reg_kinds or None in look_kinds or not reg_kinds or not look_kinds:
+        rep.undecided("R11.4", "src/fcp/error.py", "fcp.error.Logger", "registration key / lookup key", "not in a recognised form (%s / %s)" % (sorted(str(k) for k in reg_kinds), sorted(str(k) for k in look_kinds)))
+    elif reg_kinds == look_kinds == {"basename"}:
+        rep.ok("R11.4", "src/fcp/error.py", "fcp.error.Logger", "sources registered and looked up by file base name", "the same function of the file on both sides")
+    elif reg_kinds != look_kinds:
+        rep.violation("R11.4", "src/fcp/error.py", "fcp.error.Logger", "registration key %s / lookup key %s" % (sorted(reg_kinds), sorted(look_kinds)), "sources are registered under one form of the file name and looked up under another: rendering raises KeyError")
+    else:
+        # both use the whole path: then every node's meta must carry exactly the registered spelling of the path;
+        # a transformer rooted at a resolved()/absolute() path cites a different spelling than the one registered
+        norm_sites = []
+        for q in sorted(xf.reach):
+            f_ = prog.functions[q]
+            for c_ in walk_local(f_.node):
+                if isinstance(c_, ast.Call) and isinstance(c_.func, ast.Attribute) and c_.func.attr in ("resolve", "absolute", "expanduser", "realpath") and f_.module.name.startswith("fcp.parser"):
+                    norm_sites.append("%s: %s" % (f_.name, norm(c_, 50)))
+        if norm_sites:
+            rep.violation("R11.4", "src/fcp/error.py", "fcp.error.Logger", "sources keyed by whole path; path re-spelled at %s" % norm_sites[0],
+                          "sources are registered and looked up by the whole path, but the parser re-spells paths (%s): a node of an imported module cites a path that was never registered (KeyError while rendering)" % "; ".join(norm_sites[:2]))
+        else:
+            rep.undecided("R11.4", "src/fcp/error.py", "fcp.error.Logger", "sources keyed by whole path", "agreement of path spellings not decided")
     # (c) nodes handed to error()/results_in() on the parse path carry .meta
     tok = prog.classes.get("fcp.parser.Token")
     for q in sorted(xf.reach):
@@ -525,6 +574,11 @@ def r114(eng, rep, xf, parse_sites) -> None:
                         rep.check(bool(okm), "R11.4", f.file, f.qual, norm(node_arg, 90), "error node carries a MetaData", "error node's meta is not a MetaData built from a parse-tree node or a lark position")
                     else:
                         rep.undecided("R11.4", f.file, f.qual, norm(node_arg, 90), "error node is not a Token(...) construction")
+
+
+def resolve_local_expr(f: FuncInfo, e: ast.AST) -> ast.AST:
+    from ..dataflow import resolve_local
+    return resolve_local(e, Defs(f.node))
 
 
 def shape(t: ast.AST):
